@@ -887,7 +887,7 @@ class C16(HistoryProfile):
                                              "rename_any", "add_data_column"), p_off=0.3)
     cfg["formula_kinds"] = ["arith", "str", "ref", "reflist", "lookup", "lookupone", "count", "all",
                             "contains", "find", "prevnext", "prevnext", "lookup", "lazy", "lazy",
-                            "twopath"]
+                            "twopath", "sumlookup", "sumlookup"]
     cfg["rich_specs"] = True
     cfg["no_sort_by"] = True     # legacy sort_by= strings are not among the rewritten forms
     return cfg
